@@ -2,10 +2,12 @@
 //! working tree of the gc-arena crate.  Usage: translator-collect [OUT_DIR]
 //! Source root: $VERIF_REPO (default /repo).  Output files are rewritten only when they change.
 
+mod inline;
 mod ir;
 mod mexpand;
 mod translate;
 
+use inline::{FnDef, FnTable, Owner};
 use ir::*;
 use mexpand::MacroDef;
 use quote::ToTokens;
@@ -22,6 +24,7 @@ struct Defaults {
 }
 
 struct World {
+    fns: FnTable,
     macros: BTreeMap<String, MacroDef>,
     impls: Vec<Impl>,
     notes: Vec<String>,
@@ -211,34 +214,79 @@ fn read_dyn_adapter(collect_rs: &syn::File, macros: &BTreeMap<String, MacroDef>)
                                 continue;
                             }
                             let cc = second_arg_name(&f.sig).unwrap_or_else(|| "cc".into());
-                            let mut wrapper = String::new();
-                            let mut wrapper_fields = 0usize;
-                            for st in &f.block.stmts {
-                                if let syn::Stmt::Item(syn::Item::Struct(ws)) = st {
-                                    wrapper_fields = ws.fields.len();
+                            // the forwarding tracer: a struct with one field and its `impl Trace`, declared inside
+                            // `dyn_trace` or at module level of collect.rs; it is the type `dyn_trace` constructs around `cc`
+                            let mut structs: BTreeMap<String, Vec<usize>> = BTreeMap::new();
+                            let mut trace_impls: Vec<&syn::ItemImpl> = Vec::new();
+                            let nested_items = f.block.stmts.iter().filter_map(|st| match st {
+                                syn::Stmt::Item(i) => Some(i),
+                                _ => None,
+                            });
+                            for item in nested_items.chain(collect_rs.items.iter()) {
+                                match item {
+                                    syn::Item::Struct(ws) => {
+                                        structs.entry(ws.ident.to_string()).or_insert_with(Vec::new).push(ws.fields.len());
+                                    }
+                                    syn::Item::Impl(wi) => {
+                                        let wtr = wi.trait_.as_ref().and_then(|(_, p, _)| p.segments.last().map(|s| s.ident.to_string())).unwrap_or_default();
+                                        if wtr == "Trace" {
+                                            trace_impls.push(wi);
+                                        }
+                                    }
+                                    _ => {}
                                 }
                             }
-                            for st in &f.block.stmts {
-                                if let syn::Stmt::Item(syn::Item::Impl(wi)) = st {
-                                    let wtr = wi.trait_.as_ref().and_then(|(_, p, _)| p.segments.last().map(|s| s.ident.to_string())).unwrap_or_default();
-                                    if wtr != "Trace" {
-                                        continue;
+                            let impl_name = |wi: &syn::ItemImpl| -> String {
+                                match &*wi.self_ty {
+                                    syn::Type::Path(tp) => tp.path.segments.last().map(|s| s.ident.to_string()).unwrap_or_default(),
+                                    _ => String::new(),
+                                }
+                            };
+                            struct Constructed { names: Vec<String> }
+                            impl<'ast> syn::visit::Visit<'ast> for Constructed {
+                                fn visit_expr_call(&mut self, c: &'ast syn::ExprCall) {
+                                    if let syn::Expr::Path(p) = &*c.func {
+                                        if let Some(i) = p.path.get_ident() { self.names.push(i.to_string()); }
                                     }
-                                    if let syn::Type::Path(tp) = &*wi.self_ty {
-                                        wrapper = tp.path.segments.last().map(|s| s.ident.to_string()).unwrap_or_default();
-                                    }
-                                    for wii in &wi.items {
-                                        if let syn::ImplItem::Fn(wf) = wii {
-                                            if wf.sig.ident == "trace_gc" {
-                                                d.wrap_gc = forward_of(wf);
-                                            } else if wf.sig.ident == "trace_gc_weak" {
-                                                d.wrap_weak = forward_of(wf);
-                                            } else {
-                                                d.wrap_other.push(wf.sig.ident.to_string());
-                                            }
+                                    syn::visit::visit_expr_call(self, c);
+                                }
+                                fn visit_expr_struct(&mut self, st: &'ast syn::ExprStruct) {
+                                    if let Some(i) = st.path.get_ident() { self.names.push(i.to_string()); }
+                                    syn::visit::visit_expr_struct(self, st);
+                                }
+                                fn visit_item(&mut self, _i: &'ast syn::Item) {}
+                            }
+                            let mut con = Constructed { names: vec![] };
+                            syn::visit::Visit::visit_block(&mut con, &f.block);
+                            let cands: Vec<String> = con.names.iter().filter(|n| trace_impls.iter().any(|wi| impl_name(wi) == **n)).cloned().collect();
+                            let mut wrapper = String::new();
+                            let mut wrapper_fields = 0usize;
+                            if cands.len() == 1 {
+                                wrapper = cands[0].clone();
+                                // exactly one definition of the struct, else the count stays 0 and the adapter is refused
+                                wrapper_fields = match structs.get(&wrapper) {
+                                    Some(v) if v.len() == 1 => v[0],
+                                    _ => 0,
+                                };
+                            } else if cands.len() > 1 {
+                                d.wrap_other.push(format!("dyn_trace constructs {} tracer types", cands.len()));
+                            }
+                            let mine: Vec<&&syn::ItemImpl> = trace_impls.iter().filter(|wi| !wrapper.is_empty() && impl_name(wi) == wrapper).collect();
+                            if mine.len() > 1 {
+                                d.wrap_other.push(format!("{} impls of Trace for {}", mine.len(), wrapper));
+                            }
+                            for wi in mine {
+                                for wii in &wi.items {
+                                    if let syn::ImplItem::Fn(wf) = wii {
+                                        if wf.sig.ident == "trace_gc" {
+                                            d.wrap_gc = forward_of(wf);
+                                        } else if wf.sig.ident == "trace_gc_weak" {
+                                            d.wrap_weak = forward_of(wf);
                                         } else {
-                                            d.wrap_other.push(compact_str(&wii.to_token_stream().to_string()));
+                                            d.wrap_other.push(wf.sig.ident.to_string());
                                         }
+                                    } else {
+                                        d.wrap_other.push(compact_str(&wii.to_token_stream().to_string()));
                                     }
                                 }
                             }
@@ -322,12 +370,18 @@ fn translate_impl(
     for it in &im.items {
         match it {
             syn::ImplItem::Const(c) if c.ident == "NEEDS_TRACE" => {
-                let ctx = Ctx { tracer: "cc".into(), self_is_container: true };
+                let ctx = Ctx::plain("cc", true);
                 nt = Some(ctx.bexpr(&c.expr));
             }
             syn::ImplItem::Fn(f) if f.sig.ident == "trace" => match tracer_name(&f.sig) {
                 Some(t) => {
-                    let ctx = Ctx { tracer: t, self_is_container: true };
+                    let ctx = Ctx {
+                        fns: Some(&w.fns),
+                        file: file.to_string(),
+                        self_tycon: Some(tc.id.clone()),
+                        self_args: tc.args.clone(),
+                        ..Ctx::plain(&t, true)
+                    };
                     body = Some(ctx.block(&f.block));
                 }
                 None => body = Some(Stmt::Unknown(format!("signature {}", compact(&f.sig)))),
@@ -459,6 +513,59 @@ fn walk_items(w: &mut World, items: &[syn::Item], file: &str, uses: &UseMap, gat
     }
 }
 
+/// Every function the crate defines (free, inherent, trait-impl), for inlining helper calls out of `trace`.
+fn gather_fns(items: &[syn::Item], file: &str, uses: &UseMap, out: &mut Vec<FnDef>) {
+    for it in items {
+        match it {
+            syn::Item::Fn(f) => out.push(FnDef::from_item(f, file)),
+            syn::Item::Impl(im) => {
+                let tc = canon_type(&im.self_ty, uses);
+                let impl_generics: Vec<String> = im.generics.type_params().map(|p| p.ident.to_string()).collect();
+                let owner = match &im.trait_ {
+                    None => Owner::Inherent(tc.id.clone(), tc.args.clone()),
+                    Some((_, p, _)) => {
+                        if trait_is_collect(p) {
+                            continue;
+                        }
+                        Owner::TraitImpl(p.segments.last().map(|s| s.ident.to_string()).unwrap_or_default(), tc.id.clone(), tc.args.clone())
+                    }
+                };
+                // a `#[cfg]` on the impl block could make the definition conditional: keep the attribute on the
+                // function so that `inlinable` refuses it
+                for ii in &im.items {
+                    if let syn::ImplItem::Fn(f) = ii {
+                        let mut attrs = f.attrs.clone();
+                        attrs.extend(im.attrs.iter().filter(|a| a.path().is_ident("cfg")).cloned());
+                        out.push(FnDef {
+                            name: f.sig.ident.to_string(),
+                            file: file.to_string(),
+                            owner: owner.clone(),
+                            attrs,
+                            sig: f.sig.clone(),
+                            block: f.block.clone(),
+                            impl_generics: impl_generics.clone(),
+                        });
+                    }
+                }
+            }
+            syn::Item::Mod(md) => {
+                if let Some((_, inner)) = &md.content {
+                    // an inline module: its functions are only reachable through a path the resolver does not
+                    // model, except by `use`; keep them (resolution stays unique-by-name and fails closed)
+                    let before = out.len();
+                    gather_fns(inner, file, uses, out);
+                    if md.attrs.iter().any(|a| a.path().is_ident("cfg")) {
+                        for d in out[before..].iter_mut() {
+                            d.attrs.extend(md.attrs.iter().filter(|a| a.path().is_ident("cfg")).cloned());
+                        }
+                    }
+                }
+            }
+            _ => {}
+        }
+    }
+}
+
 fn gather_macros(items: &[syn::Item], file: &str, out: &mut BTreeMap<String, MacroDef>, notes: &mut Vec<String>) {
     for it in items {
         match it {
@@ -503,13 +610,13 @@ fn read_defaults(collect_rs: &syn::File) -> Defaults {
                     match ti {
                         syn::TraitItem::Const(c) if c.ident == "NEEDS_TRACE" => {
                             if let Some((_, e)) = &c.default {
-                                let ctx = Ctx { tracer: "cc".into(), self_is_container: true };
+                                let ctx = Ctx::plain("cc", true);
                                 d.nt = ctx.bexpr(e);
                             }
                         }
                         syn::TraitItem::Fn(f) if f.sig.ident == "trace" => {
                             if let (Some(b), Some(t)) = (&f.default, tracer_name(&f.sig)) {
-                                let ctx = Ctx { tracer: t, self_is_container: true };
+                                let ctx = Ctx::plain(&t, true);
                                 d.body = ctx.block(b);
                             }
                         }
@@ -527,7 +634,7 @@ fn read_defaults(collect_rs: &syn::File) -> Defaults {
                             let vname = tracer_name(&f.sig); // second argument
                             match (&f.default, gen_ok, gname, vname) {
                                 (Some(b), true, Some(g), Some(v)) => {
-                                    let ctx = Ctx { tracer: "self".into(), self_is_container: false };
+                                    let ctx = Ctx::plain("self", false);
                                     let s = ctx.block(b);
                                     // normalise the names to C / value
                                     d.trace_default = rename(&s, &g, &v);
@@ -681,7 +788,13 @@ fn main() {
         Some((_, f, _)) => read_dyn_adapter(f, &macros),
         None => DynAdapter::default(),
     };
-    let mut w = World { macros, impls: vec![], notes, defaults };
+    let mut fns = FnTable::default();
+    for (name, f, _) in &files {
+        let uses = collect_uses(&f.items);
+        gather_fns(&f.items, name, &uses, &mut fns.fns);
+        fns.uses.insert(name.clone(), uses);
+    }
+    let mut w = World { fns, macros, impls: vec![], notes, defaults };
     let dn = w.defaults.notes.clone();
     w.notes.extend(dn);
 
